@@ -31,18 +31,34 @@ def is_cursor_type(t):
 
 class Alt(object):
     """k: cursor -> known characters; le / lt: pairs (a, b) with a <= b / a < b (a trails b)."""
-    __slots__ = ('k', 'le', 'lt')
+    __slots__ = ('k', 'le', 'lt', 'past', 'assoc', 'nz')
 
-    def __init__(self, k=None, le=None, lt=None):
+    def __init__(self, k=None, le=None, lt=None, past=None, assoc=None, nz=None):
         self.k = k or {}
         self.le = le or frozenset()
         self.lt = lt or frozenset()
+        self.past = past or frozenset()     # cursors that may stand one past their terminator
+        self.assoc = assoc or {}            # local id -> ('char', cursor, j) | ('digit', cursor, j, n)
+        self.nz = nz or frozenset()         # char locals known to be non-zero
 
     def copy(self):
-        return Alt(dict(self.k), self.le, self.lt)
+        return Alt(dict(self.k), self.le, self.lt, self.past, dict(self.assoc), self.nz)
 
     def key(self):
-        return (tuple(sorted((a, b) for a, b in self.k.items() if b)), tuple(sorted(self.le)), tuple(sorted(self.lt)))
+        return (tuple(sorted((a, b) for a, b in self.k.items() if b)), tuple(sorted(self.le)), tuple(sorted(self.lt)),
+                tuple(sorted(self.past)), tuple(sorted(self.assoc.items())), tuple(sorted(self.nz)))
+
+    def shift(self, v, j):
+        """cursor v moved forward by j: associations keep denoting the same characters."""
+        for l, a in list(self.assoc.items()):
+            if a[1] == v:
+                self.assoc[l] = a[:2] + (a[2] - j,) + a[3:]
+
+    def drop(self, v):
+        for l, a in list(self.assoc.items()):
+            if a[1] == v:
+                del self.assoc[l]
+        self.past = self.past - {v}
 
     def get(self, v):
         return self.k.get(v, ())
@@ -100,7 +116,11 @@ def meet_alts(alts):
     for a in alts:
         le = a.le | a.lt if le is None else le & (a.le | a.lt)
         lt = a.lt if lt is None else lt & a.lt
-    return Alt(out, frozenset(le or ()), frozenset(lt or ()))
+    past = frozenset().union(*[a.past for a in alts]) if alts else frozenset()
+    nz = None
+    for a in alts:
+        nz = a.nz if nz is None else nz & a.nz
+    return Alt(out, frozenset(le or ()), frozenset(lt or ()), past, None, nz)
 
 
 class CursorAnalysis(object):
@@ -144,6 +164,11 @@ class CursorAnalysis(object):
         if k == 'DeclRefExpr':
             i = (x.get('referencedDecl') or {}).get('id')
             return (i, 0) if i in self.cursors else None
+        if k == 'UnaryOperator' and x.get('opcode') == '++':
+            a = self.ptr(kids(x)[0])
+            if a is not None:
+                # evaluated after its side effect: prefix yields the new position, postfix the old one
+                return (a[0], a[1] + (-1 if x.get('isPostfix') else 0))
         if k == 'BinaryOperator' and x.get('opcode') in ('+', '-'):
             a = self.ptr(kids(x)[0])
             c = self.fold.fold(kids(x)[1])
@@ -154,6 +179,18 @@ class CursorAnalysis(object):
                 c = self.fold.fold(kids(x)[0])
                 if b is not None and c is not None:
                     return (b[0], b[1] + c)
+        return None
+
+    def char_of(self, e, alt):
+        """Like char_at, but also resolves a char local that still mirrors a character."""
+        ca = self.char_at(e)
+        if ca is not None:
+            return ca
+        x = peel(e)
+        if x is not None and x.get('kind') == 'DeclRefExpr':
+            a = alt.assoc.get((x.get('referencedDecl') or {}).get('id'))
+            if a is not None and a[0] == 'char':
+                return (a[1], a[2])
         return None
 
     def char_at(self, e):
@@ -182,12 +219,32 @@ class CursorAnalysis(object):
                 prev[3] = detail
 
     def need(self, node, alt, cid, j, what):
+        """Obligation for reading at offset j (what='read beyond') or advancing by j."""
+        nm = self.cursors[cid].get('name')
+        k = len(alt.get(cid))
+        if what == 'read beyond':
+            ok = k >= j and (cid not in alt.past or k > 0 or j < 0)
+            if j < 0:
+                ok = True
+            self.oblige(node, 'read %s[%d]' % (nm, j), ok,
+                        '%d character(s) from %s are known to precede the terminator%s, offset %d read' % (
+                            k, nm, ' and it may already stand one past it' if cid in alt.past else '', j))
+            return
         if j <= 0:
             return
+        # forming the pointer one past the terminator is allowed; it must not be read there
+        ok = k >= j - 1 and not (cid in alt.past and k == 0)
+        self.oblige(node, '%s %s by %d' % (what, nm, j), ok,
+                    'only %d character(s) from %s are known to precede the terminator here, advancing by %d' % (k, nm, j))
+
+    def after_advance(self, alt, cid, j):
+        """State update for cursor cid moved forward by constant j (obligation already recorded)."""
         k = len(alt.get(cid))
-        nm = self.cursors[cid].get('name')
-        self.oblige(node, '%s %s by %d' % (what, nm, j), k >= j,
-                    'only %d character(s) from %s are known to precede the terminator here, %d needed' % (k, nm, j))
+        alt.k[cid] = alt.get(cid)[j:]
+        alt.shift(cid, j)
+        if k < j:
+            alt.past = alt.past | {cid}
+        alt.advanced(cid, j)
 
     # -- evaluation with effects: returns list of alts after evaluating e for effects
     def effects(self, e, alt):
@@ -226,12 +283,15 @@ class CursorAnalysis(object):
                     else:
                         self.oblige(x, 'advance %s by 1' % self.cursors[p[0]].get('name'), True, 'strictly behind a leading cursor')
                     a2 = alt.copy()
-                    a2.k[p[0]] = alt.get(p[0])[1:]
-                    a2.advanced(p[0], 1)
+                    strict = any(q[0] == p[0] for q in alt.lt)
+                    self.after_advance(a2, p[0], 1)
+                    if strict:
+                        a2.past = a2.past - {p[0]}
                     return [a2]
                 a2 = alt.copy()
                 a2.k[p[0]] = ()
                 a2.forget(p[0])
+                a2.drop(p[0])
                 return [a2]
         # reads
         ca = self.char_at(x) if k in ('UnaryOperator', 'ArraySubscriptExpr') else None
@@ -286,12 +346,12 @@ class CursorAnalysis(object):
                     a3 = s2.copy()
                     if op == '+=' and j is not None and j >= 0:
                         self.need(node, s2, cid, j, 'advance')
-                        a3.k[cid] = s2.get(cid)[j:]
-                        a3.advanced(cid, j)
+                        self.after_advance(a3, cid, j)
                     elif op == '+=' and self._bounded_by_leader(node, rhs, cid, s2):
                         self.oblige(node, 'advance %s by a computed amount' % self.cursors[cid].get('name'), True,
                                     'amount is c*((leader - cursor)/c) <= distance to a leading cursor')
                         a3.k[cid] = ()
+                        a3.drop(cid)
                         a3.lt = frozenset(p_ for p_ in a3.lt if p_[0] != cid)
                     else:
                         if op == '+=':
@@ -299,6 +359,7 @@ class CursorAnalysis(object):
                                         'the amount is not a constant on this path')
                         a3.k[cid] = ()
                         a3.forget(cid)
+                        a3.drop(cid)
                     res.append(a3)
                 continue
             r = peel(rhs, explicit=False)
@@ -315,8 +376,13 @@ class CursorAnalysis(object):
             if src is not None and src[0] != cid:
                 j = src[1]
                 a2.forget(cid)
+                a2.drop(cid)
+                if src[0] in s.past:
+                    a2.past = a2.past | {cid}
                 if j > 0:
                     self.need(node, s, src[0], j, 'advance')
+                    if len(s.get(src[0])) < j:
+                        a2.past = a2.past | {cid}
                     a2.k[cid] = s.get(src[0])[j:]
                     a2.le = a2.le | {(src[0], cid)}
                     a2.lt = a2.lt | {(src[0], cid)}
@@ -333,11 +399,11 @@ class CursorAnalysis(object):
                 j = src[1]
                 if j > 0:
                     self.need(node, s, cid, j, 'advance')
-                    a2.k[cid] = s.get(cid)[j:]
-                    a2.advanced(cid, j)
+                    self.after_advance(a2, cid, j)
                 elif j < 0:
                     a2.k[cid] = ()
                     a2.forget(cid)
+                    a2.drop(cid)
                 res.append(a2)
                 continue
             pe = r
@@ -357,6 +423,7 @@ class CursorAnalysis(object):
                     res.append(a2)
                     continue
             a2.forget(cid)
+            a2.drop(cid)
             # anything else (null, call result, c_str()): nothing known from the new position
             a2.k[cid] = ()
             res.append(a2)
@@ -466,6 +533,10 @@ class CursorAnalysis(object):
         """Position ca is known to hold val (or NN).  Extends the tuple only contiguously."""
         cid, j = ca
         if j < 0:
+            if j == -1 and val != 0 and cid in alt.past:
+                a2 = alt.copy()
+                a2.past = a2.past - {cid}
+                return a2
             return alt
         t = list(alt.get(cid))
         if j < len(t):
@@ -536,20 +607,36 @@ class CursorAnalysis(object):
                 outs += self.effects(b, s)
             res = []
             for s in outs:
-                ca, cb = self.char_at(a), self.char_at(b)
+                ca, cb = self.char_of(a, s), self.char_of(b, s)
                 # *++p forms: position after the side effect is (p, 0)
                 va, vb = self.fold.fold(a), self.fold.fold(b)
                 r = s
+                la, lb = self._local_id(a), self._local_id(b)
                 if ca is not None and vb is not None:
                     r = self._learn_cmp(s, ca, vb, eq)
+                    if r is not None and la is not None and ((eq and vb != 0) or (not eq and vb == 0)):
+                        r = r.copy()
+                        r.nz = r.nz | {la}
                 elif cb is not None and va is not None:
                     r = self._learn_cmp(s, cb, va, eq)
+                elif la is not None and vb is not None and ca is None:
+                    if (eq and vb != 0) or (not eq and vb == 0):
+                        r = s.copy()
+                        r.nz = r.nz | {la}
                 elif ca is not None and cb is not None and eq:
                     kb, ka = self._known(s, cb), self._known(s, ca)
                     if kb is not None and kb != 0:
                         r = self.learn(s, ca, kb)
                     elif ka is not None and ka != 0:
                         r = self.learn(s, cb, ka)
+                    elif lb is not None and lb in s.nz:
+                        r = self.learn(s, ca, NN)
+                    elif la is not None and la in s.nz:
+                        r = self.learn(s, cb, NN)
+                elif ca is not None and lb is not None and lb in s.nz and eq:
+                    r = self.learn(s, ca, NN)
+                elif cb is not None and la is not None and la in s.nz and eq:
+                    r = self.learn(s, cb, NN)
                 else:
                     pa, pb = self.ptr(a), self.ptr(b)
                     if pa is not None and pb is not None and pa[1] == 0 and pb[1] == 0 and r is not None:
@@ -585,6 +672,27 @@ class CursorAnalysis(object):
                 if r is not None:
                     res.append(r)
             return self._cap(res)
+        if k == 'BinaryOperator' and x.get('opcode') in ('<', '>=', '>', '<='):
+            a, b = kids(x)
+            la = self._local_id(a)
+            vb = self.fold.fold(b)
+            outs = self.effects(x, alt)
+            if la is not None and vb is not None:
+                res = []
+                for s_ in outs:
+                    asc = s_.assoc.get(la)
+                    r = s_
+                    if asc is not None and asc[0] == 'digit':
+                        n_ = asc[3]
+                        op = x.get('opcode')
+                        lt_n = (op == '<' and truth and vb <= n_) or (op == '>=' and not truth and vb <= n_) or \
+                            (op == '<=' and truth and vb <= n_ - 1) or (op == '>' and not truth and vb <= n_ - 1)
+                        if lt_n:
+                            r = self.learn(s_, (asc[1], asc[2]), NN)
+                    if r is not None:
+                        res.append(r)
+                return res
+            return outs
         if k == 'VarDecl':
             return [alt]
         # character-class calls
@@ -613,6 +721,70 @@ class CursorAnalysis(object):
                     res.append(r)
             return res
         return self.effects(x, alt)
+
+    def _local_id(self, e):
+        x = peel(e)
+        if x is not None and x.get('kind') == 'DeclRefExpr' and (x.get('referencedDecl') or {}).get('kind') in ('VarDecl', 'ParmVarDecl'):
+            i = (x.get('referencedDecl') or {}).get('id')
+            return i if i not in self.cursors else None
+        return None
+
+    def _associate(self, d, init, alt):
+        """Record what a freshly initialised local mirrors."""
+        t = (dtype(d) or qtype(d)).replace('const ', '').strip()
+        x = peel(init)
+        if t in ('char', 'signed char', 'unsigned char', 'int') or t.startswith('char'):
+            ca = self.char_at(init)
+            if ca is not None and d['id'] not in self.cursors:
+                alt.assoc[d['id']] = ('char', ca[0], ca[1])
+                kn = self._known(alt, ca)
+                if kn is not None and kn != 0:
+                    alt.nz = alt.nz | {d['id']}
+                return
+        # p = strchr(SET, <char>)
+        if x is not None and x.get('kind') == 'CallExpr' and callee(x) and callee(x)[0] == 'fn' and \
+                callee(x)[1].get('name') == 'strchr' and len(call_args(x)) == 2:
+            ca = self.char_at(call_args(x)[1])
+            n = self._set_len(call_args(x)[0])
+            if ca is not None and n is not None:
+                alt.assoc[d['id']] = ('digit', ca[0], ca[1], n, self._set_key(call_args(x)[0]))
+            return
+        # d = p - SET
+        if x is not None and x.get('kind') == 'BinaryOperator' and x.get('opcode') == '-':
+            a, b = kids(x)
+            pa = peel(a)
+            if pa.get('kind') == 'DeclRefExpr':
+                asc = alt.assoc.get((pa.get('referencedDecl') or {}).get('id'))
+                if asc is not None and asc[0] == 'digit' and len(asc) > 4 and asc[4] == self._set_key(b):
+                    alt.assoc[d['id']] = asc
+
+    def _set_key(self, e):
+        x = peel(e)
+        if x is not None and x.get('kind') == 'DeclRefExpr':
+            return (x.get('referencedDecl') or {}).get('id')
+        if x is not None and x.get('kind') == 'StringLiteral':
+            return x.get('value')
+        return None
+
+    def _set_len(self, e):
+        x = peel(e)
+        if x is None:
+            return None
+        if x.get('kind') == 'StringLiteral':
+            try:
+                return len(bytes(x.get('value', '""')[1:-1], 'utf-8').decode('unicode_escape'))
+            except Exception:
+                return None
+        if x.get('kind') == 'DeclRefExpr':
+            d = self.u.by_id.get((x.get('referencedDecl') or {}).get('id'))
+            if d is not None and kids(d):
+                from ..table import table_of
+                try:
+                    v = table_of(self.u, d)[0]
+                    return len(v) - 1 if isinstance(v, list) else None
+                except Exception:
+                    return None
+        return None
 
     def _learn_cmp(self, s, ca, val, eq):
         """character at ca == val (eq) / != val."""
@@ -683,6 +855,10 @@ class CursorAnalysis(object):
                         outs = self.assign(a, a['id'], ks[-1], alt, '=')
                     else:
                         outs = self.effects(ks[-1], alt)
+                    for s_ in outs:
+                        s_.assoc.pop(a['id'], None)
+                        s_.nz = s_.nz - {a['id']}
+                        self._associate(a, ks[-1], s_)
             elif ak in ('BreakStmt', 'ContinueStmt', 'NullStmt'):
                 outs = [alt]
             elif ak == 'ReturnStmt':
